@@ -2,6 +2,8 @@
 from __future__ import annotations
 
 import ast
+import os
+import sys
 import fractions
 import z3
 from typing import Callable, Dict, List, Optional, Set, Tuple
@@ -345,6 +347,11 @@ class CallMixin:
         if res.ty.kind == "ntuple":
             c = self.tree.cls(res.ty.args[0])
             res = Val(res.ty, None, items={n: V.fresh(self.type_of_annotation(a, c.module, c), "ret_" + n) for n, a in c.fields})
+        elif res.ty.kind == "opt" and res.ty.args[0].kind == "ntuple":
+            # Optional[NamedTuple]: a none flag plus one fresh term per field (read only where the flag is false)
+            c = self.tree.cls(res.ty.args[0].args[0])
+            res = Val(res.ty, None, none=z3.Const(V.fresh_name("ret_isnone"), z3.BoolSort()),
+                      items={n: V.fresh(self.type_of_annotation(a, c.module, c), "ret_" + n) for n, a in c.fields})
         pre = S.SpecState(self, env, st.heap, st.heap, res)
         for spec, refs in k.modifies_:
             for key in self.heap_keys_of(s2.heap, spec):
@@ -395,8 +402,15 @@ class CallMixin:
         post = S.SpecState(self, env, s4.heap, old_heap, res, {"skolem": {}})
         for lbl, f in k.ensures_:
             s4.assume(f(post))
+            if os.environ.get("PYVC_TRACE") and res.none is not None and not self.feasible_with(s4, z3.Not(res.none)):
+                print("NOT-NONE INFEASIBLE after assuming", qual, lbl, file=sys.stderr)
+                break
         for wv in post.extra["skolem"].values():
             self.assume_wf(s4, wv)
+        if k.ensures_ and not self.feasible(s4):
+            # the state was feasible before the postconditions were assumed: the contract contradicts its own frame at this call site
+            # (typically a missing `modifies`); everything after the call would be proved vacuously, so this is reported, never silent
+            self.contradictory_contracts.append(f"{qual} at {getattr(node, 'lineno', '?')} in {self.cur_func}")
         out.append(("val", s4, res))
         return out
 
@@ -610,7 +624,10 @@ class CallMixin:
                 raise OutOfSubset(f"external contract {q} lacks params")
             env = dict(zip(params, args))
             env.update(kwargs)
-            return self.apply_contract(k, env, getattr(k, "returns", NONE), st, fr, node, q)
+            rt = getattr(k, "returns", NONE)
+            if callable(rt):
+                rt = rt(env)          # result type derived from the receiver's type arguments (AVLTree[K, V] -> Optional[V])
+            return self.apply_contract(k, env, rt, st, fr, node, q)
         if q in ("builtins.len",):
             v = args[0]
             if v.ty.kind in ("list", "dict", "set"):
@@ -629,7 +646,15 @@ class CallMixin:
             if v.ty.kind == "str":
                 return self.val(st, v)
             if v.t is not None:
-                return self.val(st, Val(STR, self.uf("str_of_" + V.sort_key(v.t.sort()), v.t.sort(), V.StrS)(v.t)))
+                f = self.uf("str_of_" + V.sort_key(v.t.sort()), v.t.sort(), V.StrS)
+                if v.t.sort() == z3.IntSort():
+                    # str() of an int is injective (decimal notation): stated through a left inverse, which is pattern-friendly
+                    inv = self.uf("int_of_str_of_Int", V.StrS, z3.IntSort())
+                    a = z3.Int("soi_a")
+                    ax = z3.ForAll([a], inv(f(a)) == a)
+                    if not any(ax.eq(x) for x in self.global_axioms):
+                        self.global_axioms.append(ax)
+                return self.val(st, Val(STR, f(v.t)))
         if q == "builtins.repr" or q == "builtins.type":
             return self.val(st, Val(STR, z3.Const(V.fresh_name("repr"), V.StrS)))
         if q == "builtins.id":
@@ -936,6 +961,8 @@ class CallMixin:
         fi = self.tree.func(qual)
         k = S.CONTRACTS.get(qual) or S.Contract(qual)
         self.cur_func = label or qual
+        # proof guidance only: keep the paths of two-armed ifs apart instead of joining them with if-then-else terms (more, simpler VCs)
+        self.no_merge = bool(getattr(k, "no_merge", False))
         start = len(self.vcs)
         st = State()
         env = self.symbolic_params(fi, st)
@@ -956,6 +983,9 @@ class CallMixin:
         work.heap = st.heap          # share so that initial arrays created during execution are the pre-state arrays
         outcomes = self.block(fi.node.body, State(dict(env), dict(st.heap), list(st.pc)), fr)
         n_normal = 0
+        if os.environ.get("PYVC_TRACE"):
+            for kind, s, v in outcomes:
+                print("OUTCOME", kind, getattr(v, "aux", None) if kind == "raise" else "", file=sys.stderr)
         for kind, s, v in outcomes:
             old_heap = self.initial_heap(s.heap)
             if kind in ("normal", "return"):
